@@ -24,12 +24,12 @@ def run(prog, chk):
         "the invalid-character pattern is the complement of [0-9A-Za-z_.] (R11.6)",
     ]
     chk.not_decided += ["byte identity of the other tables (fontTools compile / reload)", "the glyph order itself"]
-    r111(prog, chk)
-    r112(prog, chk)
-    r113(prog, chk)
-    r114(prog, chk)
-    r115(prog, chk)
-    r116(prog, chk)
+    chk.guard(r111, prog, chk)
+    chk.guard(r112, prog, chk)
+    chk.guard(r113, prog, chk)
+    chk.guard(r114, prog, chk)
+    chk.guard(r115, prog, chk)
+    chk.guard(r116, prog, chk)
 
 
 def _keep_var(prog, f) -> str:
